@@ -659,5 +659,8 @@ pub fn run(ctx: &Ctx) -> &'static str {
         short_strategy,
         |_| check_short,
     );
+    if ctx.tier == crate::rt::Tier::Thorough {
+        crate::props::e2e::run(ctx, crate::props::e2e::Phase::Uplink, 2);
+    }
     "exploration"
 }
